@@ -2,6 +2,8 @@ package props
 
 import (
 	"fmt"
+	"go/constant"
+	"go/token"
 	"sort"
 	"strings"
 
@@ -159,4 +161,88 @@ func c01AnnexHash(r *core.Run, p *core.Program, rule string) {
 	if n != 1 {
 		r.Fail(rule, key+"/sites", p.Pos(fn.Pos()), fmt.Sprintf("the annex hash is set %d times (once expected)", n))
 	}
+}
+
+// c01HadWitnessOnlyForPrograms: the final "witness data is unexpected" test fires when the input was not a
+// witness program.  The flag that suppresses it is set only where a witness program was recognised
+// (IsWitnessProgram returned a program): every constant true that reaches the flag arrives on an edge that is
+// under the outcome "program != nil".
+func c01HadWitnessOnlyForPrograms(r *core.Run, p *core.Program, rule string) {
+	const key = "orch/verify/had-witness-only-for-programs"
+	fn := p.Func("lib/script.VerifyTxScript")
+	if fn == nil {
+		r.Fail(rule, key, "-", "VerifyTxScript not found")
+		return
+	}
+	// the flag: the boolean whose false outcome leads to the IsNull test
+	var flag *ssa.Phi
+	for _, c := range an.CallsTo(fn, false, "(*lib/script.witness_ctx).IsNull") {
+		for _, dc := range an.DomConds(c.Block()) {
+			v := dc.If.Cond
+			if u, ok := v.(*ssa.UnOp); ok && u.Op == token.NOT {
+				v = u.X
+			}
+			if ph, ok := v.(*ssa.Phi); ok {
+				flag = ph
+			}
+		}
+	}
+	if flag == nil {
+		r.Fail(rule, key, p.Pos(fn.Pos()), "the flag guarding the unexpected-witness test was not found")
+		return
+	}
+	isProg := func(cs []an.DomCond) bool {
+		for _, dc := range cs {
+			x, y, rel, ok := dc.Cmp()
+			if !ok || rel != token.NEQ {
+				continue
+			}
+			if c, isC := y.(*ssa.Const); !isC || c.Value != nil {
+				continue
+			}
+			if an.HasAll(an.Atoms(x), "call:lib/btc.IsWitnessProgram#1") {
+				return true
+			}
+		}
+		return false
+	}
+	n := 0
+	bad := ""
+	seen := map[*ssa.Phi]bool{}
+	var walk func(ph *ssa.Phi)
+	walk = func(ph *ssa.Phi) {
+		if seen[ph] {
+			return
+		}
+		seen[ph] = true
+		for i, e := range ph.Edges {
+			switch x := e.(type) {
+			case *ssa.Phi:
+				walk(x)
+			case *ssa.Const:
+				if x.Value != nil && x.Value.Kind() == constant.Bool && constant.BoolVal(x.Value) {
+					n++
+					pr := ph.Block().Preds[i]
+					if !isProg(an.EdgeConds(pr, ph.Block())) {
+						bad = "the flag is set on the way from " + p.Pos(blockPos(pr)) + " where no witness program was recognised: witness data on such an input is no longer refused"
+					}
+				}
+			default:
+				// the flag computed as the test itself: "program != nil"
+				if x, y, rel, ok := an.CondCmp(e); ok && rel == token.NEQ {
+					if c, isC := y.(*ssa.Const); isC && c.Value == nil && an.HasAll(an.Atoms(x), "call:lib/btc.IsWitnessProgram#1") {
+						n++
+						continue
+					}
+					if c, isC := x.(*ssa.Const); isC && c.Value == nil && an.HasAll(an.Atoms(y), "call:lib/btc.IsWitnessProgram#1") {
+						n++
+						continue
+					}
+				}
+				bad = "the flag takes a computed value (" + an.Anon(an.Expr(e)) + ")"
+			}
+		}
+	}
+	walk(flag)
+	r.Check(bad == "" && n >= 1, rule, key, p.Pos(fn.Pos()), fmt.Sprintf("%d places set the flag, each under 'a witness program was recognised'", n), bad)
 }
